@@ -522,6 +522,9 @@ func (e *termEnv) termOf(v ssa.Value) *Term {
 	case *ssa.Global:
 		return tleaf("global:" + x.Pkg.Pkg.Name() + "." + x.Name())
 	case *ssa.FreeVar:
+		if b := freeVarBinding(x); b != nil {
+			return e.termOf(b)
+		}
 		return tleaf("freevar:" + x.Name())
 	case *ssa.Function:
 		return tleaf("func:" + x.String())
@@ -756,6 +759,22 @@ func (e *termEnv) load(u *ssa.UnOp) *Term {
 	case *ssa.IndexAddr:
 		return tindex(e.termOf(a.X), e.termOf(a.Index))
 	case *ssa.FreeVar:
+		// a captured variable: the cell of the enclosing function; resolved when that cell is stored exactly once
+		if b := freeVarBinding(a); b != nil {
+			if al, ok := b.(*ssa.Alloc); ok {
+				var stores []*ssa.Store
+				if refs := al.Referrers(); refs != nil {
+					for _, r := range *refs {
+						if st, ok := r.(*ssa.Store); ok && st.Addr == ssa.Value(al) {
+							stores = append(stores, st)
+						}
+					}
+				}
+				if len(stores) == 1 {
+					return e.termOf(stores[0].Val)
+				}
+			}
+		}
 		return tleaf("freevar:" + a.Name())
 	}
 	return mk("deref", "", e.termOf(u.X))
@@ -1311,4 +1330,34 @@ func tindex(base, idx *Term) *Term {
 		return tindex(base.Args[0], ni)
 	}
 	return mk("index", "", base, idx)
+}
+
+// freeVarBinding finds the value bound to a closure's free variable at the (single) MakeClosure of its function in the
+// enclosing function.
+func freeVarBinding(fv *ssa.FreeVar) ssa.Value {
+	fn := fv.Parent()
+	par := fn.Parent()
+	if par == nil {
+		return nil
+	}
+	idx := -1
+	for i, v := range fn.FreeVars {
+		if v == fv {
+			idx = i
+		}
+	}
+	var found ssa.Value
+	n := 0
+	for _, b := range par.Blocks {
+		for _, in := range b.Instrs {
+			if mc, ok := in.(*ssa.MakeClosure); ok && mc.Fn == ssa.Value(fn) && idx >= 0 && idx < len(mc.Bindings) {
+				found = mc.Bindings[idx]
+				n++
+			}
+		}
+	}
+	if n != 1 {
+		return nil
+	}
+	return found
 }
